@@ -458,6 +458,12 @@ func New(members ...Member) (Baggage, error) {
 	if n := len(bag.String()); n > maxBytesPerBaggageString {
 		return Baggage{}, fmt.Errorf("%w: %d", errBaggageBytes, n)
 	}
+	// Like Parse, do not accept a list-member over the per-member limit.
+	for _, m := range bag.Members() {
+		if n := len(m.String()); n > maxBytesPerMembers {
+			return Baggage{}, fmt.Errorf("%w: %d", errMemberBytes, n)
+		}
+	}
 
 	return bag, nil
 }
